@@ -12,7 +12,7 @@ def check_point(acc, a5, stratum, p, r, batch=None):
     case = {'kind': 'point', 'point': [p[0], p[1]], 'r': r}
     k = f'c11:point:{p[0]!r},{p[1]!r}@{r}'
     try:
-        c = a5.lonlat_to_cell(p, r)
+        c = a5.lonlat_to_cell(points.as_argument(p, r % 2 == 0), r)
         centre = a5.cell_to_lonlat(c)
     except Exception as e:
         acc.violation(k + ':raises', f'lonlat_to_cell / cell_to_lonlat raised {type(e).__name__}: {e} for {p!r} at resolution {r}', case)
